@@ -22,7 +22,7 @@ type c13Case struct {
 	HasRel    bool     `json:"has_release"`
 	RelNs     int64    `json:"release_ns"`
 	Outcome   int      `json:"outcome"`
-	Free      bool     `json:"free"` // capacity is free from the start (nobody holds the token)
+	Free      bool     `json:"free"`            // capacity is free from the start (nobody holds the token)
 	Rival     bool     `json:"rival,omitempty"` // a second caller arrives at the same instant (no cancellation in these cases)
 }
 
